@@ -525,6 +525,10 @@ class Sym:
                 for x in e.elts:
                     if isinstance(x, ast.Starred):
                         tv = rec(x.value)
+                        if tv[:1] == ("elem",) and is_call_of(tv[1], ("glob", "zip")) and tv[1][2]:
+                            # *pair for pair in zip(a, b): the paired elements
+                            cs.extend(("one", (), ("elem", a_)) for a_ in tv[1][2])
+                            continue
                         sub = _list_contribs(tv) if kind == "list" else None
                         if sub is not None:
                             cs.extend(sub)
@@ -534,6 +538,8 @@ class Sym:
                             cs.append(("many", (), tv))
                     else:
                         cs.append(("one", (), rec(x)))
+                if all(c[0] == "one" and not c[1] for c in cs):
+                    return (kind, tuple(c[2] for c in cs))      # a display after all
                 return ("acc", kind, tuple(cs))
             return (kind, tuple(rec(x) for x in e.elts))
         if isinstance(e, ast.Dict):
